@@ -47,6 +47,9 @@ type World struct {
 
 func root() ipld.Link { return cidlink.Link{Cid: doubles.Cid("root")} }
 
+// RootLink is the link of the fixed root (for other harness packages).
+func RootLink() ipld.Link { return root() }
+
 // NewWorld builds transport + doubles; ch0: self requests from B ({A,B,1}); ch1: B requests from self ({B,A,2});
 // ch2: C responds to self's push, i.e. C requests data from self with a response extension ({A,C,3}).
 func NewWorld() *World {
